@@ -29,7 +29,7 @@ import (
 	"verifharness/internal/sexp"
 )
 
-var composedKinds = []string{"plain", "args", "hostile", "renamed", "args-renamed", "mutated", "raw", "vars", "args-vars", "args-lexical"}
+var composedKinds = []string{"plain", "args", "hostile", "renamed", "args-renamed", "mutated", "raw", "vars", "args-vars", "args-lexical", "sub", "sub", "sub-renamed", "sub-vars", "async", "args-async", "async", "async"}
 
 var quotedLiteral = regexp.MustCompile(`"[^"\n]*"`)
 
@@ -83,13 +83,15 @@ func composedCase(r *rng.R, kind string) sexp.Node {
 	var in *exe.Input
 	if strings.HasPrefix(kind, "args") {
 		in = exe.GenerateArgs(r)
+	} else if strings.HasPrefix(kind, "sub") {
+		in = exe.GenerateSubscription(r)
 	} else {
 		in = exe.Generate(r, kind == "hostile")
 	}
 	text := in.Text
 	vars := in.Vars
 	switch kind {
-	case "renamed", "args-renamed":
+	case "renamed", "args-renamed", "sub-renamed":
 		text = mutateNamesWith(r, text, append(in.Vocabulary(), composedWords...))
 	case "mutated":
 		text = mutate(r, text)
@@ -113,7 +115,7 @@ func composedCase(r *rng.R, kind string) sexp.Node {
 		} else {
 			text = item + " " + text
 		}
-	case "vars", "args-vars":
+	case "vars", "args-vars", "sub-vars":
 		// raw variable values the declarations may not accept
 		vars = map[string]interface{}{}
 		for k, v := range in.Vars {
@@ -141,8 +143,8 @@ func composedCase(r *rng.R, kind string) sexp.Node {
 	}()
 	world := sexp.Sym("nil")
 	var initial interface{}
+	valid := false
 	if doc != nil {
-		valid := false
 		func() {
 			defer func() { recover() }()
 			valid = len(validator.ValidateDocument(doc, s, nil)) == 0
@@ -152,10 +154,23 @@ func composedCase(r *rng.R, kind string) sexp.Node {
 			world, initial = w.Sexp(), w.Value()
 		}
 	}
+	// kinds "async": about half of the resolvers answer through a promise, fulfilled by the idle
+	// handler under one of three schedules; the data must be the synchronous model's
+	var sched *exe.Scheduler
+	if strings.HasSuffix(kind, "async") {
+		sched = exe.NewScheduler(r)
+	}
 	o := guarded(func() outcome {
-		return judge(graphql.Execute(&graphql.Request{Context: context.Background(), Query: text, Schema: s,
-			OperationName: in.OpName, VariableValues: vars, InitialValue: initial}))
+		req := &graphql.Request{Context: context.Background(), Query: text, Schema: s,
+			OperationName: in.OpName, VariableValues: vars, InitialValue: initial}
+		if sched != nil {
+			exe.AsyncHook = sched.Hook
+			defer func() { exe.AsyncHook = nil }()
+			req.IdleHandler = sched.Idle
+		}
+		return judge(graphql.Execute(req))
 	})
+	exe.AsyncHook = nil
 	var observed sexp.Node
 	switch {
 	case o.resp == nil:
@@ -196,8 +211,42 @@ func composedCase(r *rng.R, kind string) sexp.Node {
 	if co.class != "ok" {
 		costObs = sexp.T(co.class, sexp.Str(co.detail))
 	}
+	// subscription requests also go through graphql.Subscribe (the source resolver)
+	subField := sexp.T("subscribe", sexp.T("obs", sexp.T("skipped")))
+	if strings.HasPrefix(kind, "sub") {
+		subObs := sexp.T("panic")
+		so := guarded(func() outcome {
+			_, errs := graphql.Subscribe(&graphql.Request{Context: context.Background(), Query: text, Schema: s,
+				OperationName: in.OpName, VariableValues: vars, InitialValue: initial})
+			switch {
+			case len(errs) == 0:
+				subObs = sexp.T("source")
+			case syntax:
+				subObs = sexp.T("syntax")
+			case !valid:
+				subObs = sexp.T("invalid")
+			default:
+				var path []sexp.Node
+				for _, c := range errs[0].Path {
+					if k, ok := c.(string); ok {
+						path = append(path, sexp.Str(k))
+					} else {
+						path = append(path, sexp.Int(c.(int)))
+					}
+				}
+				subObs = sexp.T("error", sexp.Int(len(errs)), sexp.L(path...))
+			}
+			return outcome{class: "ok"}
+		})
+		if so.class != "ok" {
+			subObs = sexp.T(so.class, sexp.Str(so.detail))
+		}
+		subField = sexp.T("subscribe", sexp.T("obs", subObs))
+	}
 	return sexp.T("case", sexp.T("stream", sexp.Sym("composed")), sexp.T("api", sexp.Sym("execute")), sexp.T("kind", sexp.Sym(kind)),
+		subField,
 		sexp.T("cost", sexp.T("max", sexp.Int(max)), sexp.T("res", sexp.Int(res)), sexp.T("obs", costObs)),
+		sexp.T("async", sexp.Bool(sched != nil)),
 		sexp.T("query", sexp.Str(text)), sexp.T("op", sexp.Str(in.OpName)),
 		sexp.T("features", sexp.L()),
 		sexp.T("vschema", vld.SchemaSexp(s, in.ScalarKinds())),
